@@ -8,7 +8,6 @@ import (
 
 	"github.com/gittuf/gittuf/internal/attestations"
 	"github.com/gittuf/gittuf/internal/signerverifier/dsse"
-	"github.com/gittuf/gittuf/pkg/gitinterface"
 	"github.com/gittuf/gittuf/pkg/rsl"
 
 	zzmem "github.com/gittuf/gittuf/internal/zzmem"
@@ -339,70 +338,4 @@ func HarnessC01Tags() {
 	}
 	verif.Assert(verif.Implies(err == nil, ok), "accepted-implies-every-tag-entry-meets-the-threshold")
 	verif.Assert(verif.Implies(ok, err == nil), "authorised-tag-history-verifies")
-}
-
-
-// HarnessC11Controller: global rules declared by a controller repository.  The
-// controller has its own store and log; its root (key3) declares a global
-// rule.  The repository under verification declares the controller, carries
-// the controller's metadata in its policy tree (recorded, as propagation does,
-// by a propagation entry for the policy reference naming the controller's log
-// entry), and optionally declares a global rule of its own.  Every matching
-// global rule of either root must hold for each verified push.
-func HarnessC11Controller() {
-	const location = "https://example.com/controller"
-	// the controller repository
-	wc := zzNewWorld()
-	menu := func(name string) []zzGlobalSpec {
-		switch verif.Concrete(verif.Choice(name, 4)) {
-		case 1:
-			return []zzGlobalSpec{{name: name + "-two", pattern: "git:" + zzMain, threshold: 2}}
-		case 2:
-			return []zzGlobalSpec{{name: name + "-nofp", pattern: "git:" + zzMain, blockFP: true}}
-		case 3:
-			return []zzGlobalSpec{{name: name + "-other", pattern: "git:refs/heads/other", threshold: 2}}
-		}
-		return nil
-	}
-	cglobals := menu("controller.globals")
-	cspec := &zzPolicySpec{rootKeys: []int{3}, rootThreshold: 1, globals: cglobals}
-	cstate := wc.zzBuildState(cspec, []int{3}, nil)
-	zzMust(wc.zzStageAndApply(cspec, cstate, 3))
-	upstreamEntry := wc.S.Ref(rsl.Ref)
-	gitinterface.ZZCloneSources[location] = wc.S
-
-	// the repository under verification: first an ordinary policy, then one
-	// that declares the controller and carries its metadata
-	w := zzNewWorld()
-	p0 := zzBasePolicy([]int{0, 1}, nil)
-	zzMust(w.zzStageAndApply(p0, w.zzBuildState(p0, []int{0}, []int{0}), 0))
-	lglobals := menu("local.globals")
-	p1 := zzBasePolicy([]int{0, 1}, lglobals)
-	p1.rootVersion, p1.targetsVer = 2, 2
-	p1.controllers = []zzControllerSpec{{name: "ctrl", location: location, rootKeys: []int{3}}}
-	p1.controllerMeta = map[string]*StateMetadata{"ctrl": {RootEnvelope: cstate.Metadata.RootEnvelope}}
-	p1.controllerGlobal = cglobals
-	state := w.zzBuildState(p1, []int{0}, []int{0})
-	w.S.Signer = 0
-	zzMust(state.Commit(w.S, "policy with controller metadata", false, true))
-	tip := w.S.Ref(PolicyStagingRef)
-	w.S.SetRef(PolicyRef, tip)
-	zzMust(rsl.NewPropagationEntry(PolicyRef, tip, location, upstreamEntry).Commit(w.S, true))
-	w.policies = append(w.policies, p1)
-
-	variant := 0
-	n := verif.Concrete(verif.IntRange("slots", 1, verif.Bound("slots", 2, 2)))
-	for i := 0; i < n; i++ {
-		p := "s" + strconv.Itoa(i)
-		variant++
-		force := false
-		if _, has := w.tips[zzMain]; has {
-			force = verif.ConcreteBool(verif.Bool(p + ".force"))
-		}
-		w.zzPush(zzMain, zzSigner(p+".signer"), variant, force)
-	}
-	zzCheckRef(w, zzMain, true)
-	if len(cglobals) > 0 && len(lglobals) > 0 {
-		verif.Reach("both-roots-declare-global-rules")
-	}
 }
